@@ -26,6 +26,7 @@ class HarnessError(RuntimeError):
 class _Zygote:
     def __init__(self, hashseed, repo):
         self.hashseed = hashseed
+        self.last_used = 0
         r1, w1 = os.pipe()  # coordinator -> zygote
         r2, w2 = os.pipe()  # zygote -> coordinator
         env = dict(os.environ)
@@ -94,32 +95,45 @@ class _Zygote:
 
 
 class ZygotePool:
-    def __init__(self, jobs=None, repo=None):
+    """Up to `max_zygotes` hash-seed-pinned interpreters are kept alive (idle ones cost memory only);
+    at most `jobs` executions run at the same time."""
+
+    def __init__(self, jobs=None, repo=None, max_zygotes=None):
         self.jobs = jobs or int(os.environ.get("VERIF_JOBS", "16"))
         self.repo = repo or os.environ.get("VERIF_REPO", "/repo")
+        self.max_zygotes = max_zygotes or int(os.environ.get("VERIF_MAX_ZYGOTES", str(max(48, self.jobs * 3))))
         os.makedirs(SHM, exist_ok=True)
         self.lock = threading.Condition()
+        self.sem = threading.Semaphore(self.jobs)
         self.idle = {}  # hashseed -> [zygote]
+        self.busy = {}  # hashseed -> count
         self.total = 0
         self.spawned = 0
         self.executions = 0
+        self.tick = 0
 
     def _acquire(self, hs):
         with self.lock:
             while True:
                 lst = self.idle.get(hs)
                 if lst:
-                    return lst.pop()
-                if self.total < self.jobs:
+                    z = lst.pop()
+                    self.busy[hs] = self.busy.get(hs, 0) + 1
+                    return z
+                if self.total < self.max_zygotes:
                     self.total += 1
                     break
-                # evict an idle zygote of another seed
+                if self.busy.get(hs, 0) > 0:
+                    self.lock.wait()  # cheaper than spawning: one of that seed will be free soon
+                    continue
+                # evict the least recently used idle zygote of another seed
                 victim = None
                 for k, l in self.idle.items():
-                    if l:
-                        victim = l.pop()
-                        break
+                    for z in l:
+                        if victim is None or z.last_used < victim.last_used:
+                            victim = z
                 if victim is not None:
+                    self.idle[victim.hashseed].remove(victim)
                     threading.Thread(target=victim.close, daemon=True).start()
                     break
                 self.lock.wait()
@@ -127,15 +141,19 @@ class ZygotePool:
             z = _Zygote(hs, self.repo)
             with self.lock:
                 self.spawned += 1
+                self.busy[hs] = self.busy.get(hs, 0) + 1
             return z
         except BaseException:
             with self.lock:
                 self.total -= 1
-                self.lock.notify()
+                self.lock.notify_all()
             raise
 
     def _release(self, z, ok=True):
         with self.lock:
+            self.tick += 1
+            z.last_used = self.tick
+            self.busy[z.hashseed] = self.busy.get(z.hashseed, 1) - 1
             if ok:
                 self.idle.setdefault(z.hashseed, []).append(z)
             else:
@@ -145,16 +163,17 @@ class ZygotePool:
 
     def run(self, spec):
         hs = int(spec.get("hashseed", 0))
-        z = self._acquire(hs)
-        ok = False
-        try:
-            out = z.run(spec)
-            ok = True
-            with self.lock:
-                self.executions += 1
-            return out
-        finally:
-            self._release(z, ok)
+        with self.sem:
+            z = self._acquire(hs)
+            ok = False
+            try:
+                out = z.run(spec)
+                ok = True
+                with self.lock:
+                    self.executions += 1
+                return out
+            finally:
+                self._release(z, ok)
 
     def map(self, fn, items):
         """run fn(item) for all items on up to `jobs` threads; returns results in order"""
